@@ -166,7 +166,9 @@ int main(int argc, char** argv) {
     std::map<int, DBRow> rows; uint64_t ep = 0; std::string err; struct stat st;
     if (stat(dbPath.c_str(), &st) == 0 && st.st_size > 0 && readDB(dbPath, cv, rows, ep, err)) {
       cx.buildNo = ep;
-      for (auto& kv : rows) { Shadow& sh = cx.shadow[kv.first]; sh.has = true; sh.value = kv.second.value; sh.sig = kv.second.sig; sh.builtAt = kv.second.builtAt; sh.computedAt = kv.second.computedAt; sh.deps = kv.second.deps; }
+      for (auto& kv : rows) { Shadow& sh = cx.shadow[kv.first]; sh.has = true; sh.value = kv.second.value; sh.sig = kv.second.sig; sh.builtAt = kv.second.builtAt; sh.computedAt = kv.second.computedAt; sh.deps = kv.second.deps;
+        sh.interrupted = kv.second.builtAt == 0;   // built_at == 0 is the engine's marker for a record it invalidated when a build was cancelled: the rule is re-run
+      }
     }
   }
   if (!logPath.empty()) gLogFd = open(logPath.c_str(), O_WRONLY | O_CREAT | O_APPEND, 0644);
